@@ -127,6 +127,11 @@ type SSwitch struct {
 	E     Expr
 	Cases []Clause
 }
+type SForIn struct {
+	X    int // the loop variable (a declared variable)
+	Src  Expr
+	Body []Stmt
+}
 type SBreak struct{ L int }
 type SContinue struct{ L int }
 type SReturn struct{ E Expr }
@@ -228,6 +233,12 @@ func (s SSwitch) Coq() string {
 		parts[i] = "(" + optCoq(c.Test) + ", " + listCoq(c.Body) + ")"
 	}
 	return fmt.Sprintf("(SSwitch %s [%s])", s.E.Coq(), strings.Join(parts, "; "))
+}
+func (s SForIn) JS(ind string) string {
+	return ind + "for (" + VarName(s.X) + " in " + s.Src.JS() + ") " + listJS(s.Body, ind) + "\n"
+}
+func (s SForIn) Coq() string {
+	return fmt.Sprintf("(SForIn (EVar %d%%nat) %s %s)", s.X, s.Src.Coq(), listCoq(s.Body))
 }
 func (s SBreak) JS(ind string) string    { return ind + "break" + labJS(s.L) + ";\n" }
 func (s SBreak) Coq() string             { return fmt.Sprintf("(SBreak %d%%nat)", s.L) }
@@ -464,7 +475,12 @@ func (g *Gen) while(labs []lab, loopDepth int, label int) []Stmt {
 	reset := Assign{X: c, E: Lit{Kind: 1, N: 0}}
 	pre := []Stmt{SExpr{E: reset}}
 	var w Stmt
-	switch k := g.R.Intn(10); {
+	switch k := g.R.Intn(11); {
+	case k == 10:
+		// for-in over a value of this language (a primitive: nothing to enumerate): the subject is evaluated once,
+		// the body never runs, the statement owns its labels like the other loops
+		g.Stats["forin"]++
+		w = SForIn{X: c, Src: g.expr(2), Body: body}
 	case k < 4:
 		w = SWhile{E: test, Body: body}
 	case k < 7:
